@@ -483,6 +483,9 @@ impl Monitor for C06 {
             obs.sample(J::obj(vec![("ops", J::Arr(log.iter().take(10).map(|l| J::s(truncate(l, 120))).collect()))]));
         }
     }
+    fn boot_mut(&mut self) -> Option<&mut Xstate> {
+        Some(&mut self.boot)
+    }
     fn describe(&mut self, idx: u64) -> String {
         format!("parsing-cursor sequence #{}", idx)
     }
